@@ -154,6 +154,35 @@ def c_timeline(chk, g, drv, jobs):
         jobs.append(('timeline', args, impl))
 
 
+def app_timeline(chk, g):
+    """the application layer: `bin/xpobssim._build_timeline` parses the six padding / minimum-duration options and forwards them to the
+    timeline; with a synthetic timeline in place of the ephemeris-based one, the GTI list and the calibration intervals it returns are the
+    statement's, for asymmetric paddings too"""
+    from unittest import mock
+    from ixpeobssim.bin import xpobssim as app
+    for k in range(4 if chk.tier == 'quick' else 40):
+        tl = gen_timeline(g)
+        obj = make_timeline(tl)
+        md, pa, pb = (int(g.choice([0, 2 ** 12, 2 ** 16])), int(g.choice([0, 2 ** 10, 3 * 2 ** 11])), int(g.choice([0, 2 ** 12, 5 * 2 ** 11])))
+        cmd, ca, cb = (int(g.choice([0, 2 ** 12, 2 ** 15])), int(g.choice([2 ** 10, 2 ** 13, 3 * 2 ** 11])), int(g.choice([0, 2 ** 9, 2 ** 12])))
+        argv = ['--configfile', 'x.py', '--gtiminduration', repr(md * TICK), '--gtistartpad', repr(pa * TICK), '--gtistoppad', repr(pb * TICK),
+                '--onorbitcalib', 'True', '--onorbitcalminduration', repr(cmd * TICK), '--onorbitcalstartpad', repr(ca * TICK), '--onorbitcalstoppad', repr(cb * TICK)]
+        kwargs = app.PARSER.parse_args(argv).__dict__
+        kwargs.update(start_met=obj.start_met, stop_met=obj.stop_met)
+        roi = type('R', (), dict(ra=30., dec=45.))()
+        with mock.patch.object(app, 'xObservationTimeline', lambda *a, **k: obj):
+            _, gl, pattern = app._build_timeline(roi, **kwargs)
+        got_g = [(round(a / TICK), round(b / TICK)) for a, b in gl]
+        got_o = sorted((round(r.start_met / TICK), round(r.stop_met / TICK)) for du in (1, 2, 3) for r in pattern[du])
+        eg, _ = spec_lists(tl, md, pa, pb)
+        _, eo = spec_lists(tl, cmd, ca, cb)
+        args = dict(timeline=tl, gti=[md, pa, pb], octi=[cmd, ca, cb])
+        chk.case(dict(op='xpobssim._build_timeline', **args), nontrivial=bool(eo) and ca != cb)
+        if got_g != eg or got_o != sorted(eo):
+            chk.fail('impl', 'xpobssim._build_timeline with GTI options (min, start pad, stop pad) = %s and calibration options %s: GTIs %s, calibration intervals %s; '
+                     'the statement gives %s and %s' % ([md, pa, pb], [cmd, ca, cb], got_g, got_o, eg, sorted(eo)), dict(oracle='app-timeline', args=args))
+
+
 # ------------------------------------------------------------------ light-curve exposure
 def c_bingti(chk, g, drv, jobs):
     from ixpeobssim.binning.misc import xEventBinningLC
@@ -220,6 +249,25 @@ def lc_file(chk, g):
                          dict(oracle='lc_file', args=dict(tbins=tbins, gtis=gtis, tmin=tmin, tmax=tmax), observed=float(expo[j]), expected=float(exp[j])))
             if not (counts == cexp).all():
                 chk.fail('impl', 'LC (tbins=%d) COUNTS differ from the events in each bin' % tbins, dict(oracle='lc_file', args=dict(tbins=tbins, gtis=gtis)))
+        # a two-step history: a time selection that rewrites ONTIME / LIVETIME / DEADC (the GTI extension is copied as it is), then the light
+        # curve of the selected file: EXPOSURE is still overlap with the GTIs × the DEADC the file declares
+        from ixpeobssim.bin.xpselect import xpselect as xsel, PARSER as SPARSER
+        for (tmin, tmax) in ((350., 1500.), (None, 950.)):
+            extra = ([] if tmin is None else ['--tmin', repr(tmin)]) + ([] if tmax is None else ['--tmax', repr(tmax)])
+            sel = xsel(**SPARSER.parse_args([path, '--overwrite', 'True', '--ltimeupdate', 'True', '--suffix', 's%d' % int(tmax)] + extra).__dict__)[0]
+            o = xpbin(**PARSER.parse_args([sel, '--overwrite', 'True', '--algorithm', 'LC', '--tbins', '6']).__dict__)[0]
+            with fits.open(o) as h, fits.open(sel) as hs:
+                tab = h['RATE'].data
+                deadc = hs[0].header['DEADC']
+                sg = [(float(x), float(y)) for x, y in zip(hs['GTI'].data['START'], hs['GTI'].data['STOP'])]
+                t0, dt, expo = (numpy.array(tab[k], dtype=float) for k in ('TIME', 'TIMEDEL', 'EXPOSURE'))
+            lo, hi = t0 - 0.5 * dt, t0 + 0.5 * dt
+            exp = numpy.array([sum(max(0., min(b, y) - max(a, x)) for x, y in sg) for a, b in zip(lo, hi)]) * deadc
+            chk.case(dict(op='xpselect-then-LC', tmin=tmin, tmax=tmax, deadc=deadc), nontrivial=True)
+            if numpy.abs(expo - exp).max() > 1e-6 * max(1., exp.max()):
+                j = int(numpy.argmax(numpy.abs(expo - exp)))
+                chk.fail('impl', 'LC of a file selected with tmin=%s tmax=%s (--ltimeupdate): EXPOSURE[%d]=%.6f, overlap × DEADC (%.6f) = %.6f' % (tmin, tmax, j, expo[j], deadc, exp[j]),
+                         dict(oracle='lc_after_select', args=dict(tmin=tmin, tmax=tmax)))
 
 
 GENS = dict(filter=c_filter, complement=c_complement, timeline=c_timeline, bingti=c_bingti)
@@ -251,6 +299,7 @@ def main(chk):
     n = 60 if chk.tier == 'quick' else 2000
     run_cases(chk, n, 'C18-corr')
     lc_file(chk, rng('C18-lc'))
+    app_timeline(chk, rng('C18-app'))
     return chk.finish(level='proof', trusted=TRUSTED, search=lambda k: run_cases(chk, n, 'C18-search', k))
 
 
